@@ -22,6 +22,18 @@ C12OK(rec) ==
        /\ Contract(rec, Seqs(ToSt(rec.pre)), Seqs(post), rec.ret, rec.ev)
 
 C15OK(rec) == rec.op = "clear" => C12OK(rec)
+ExtraOps == {}
+\* In a closure the records of one state are contiguous (field g on the first of them = how many): the operations the
+\* driver applied in that state must be exactly the model's own OpSet for it - no operation of the model is left
+\* untried on the real code in any reachable state, and the driver tries nothing the model does not know.
+GroupOps(k, S) ==
+    LET names == {o.op : o \in S}
+        FieldsOf(nm) == DOMAIN (CHOOSE o \in S : o.op = nm)
+        J == {j \in k..(k + Recs[k].g - 1) : Recs[j].op \in names}
+    IN {[f \in FieldsOf(Recs[j].op) |-> Recs[j][f]] : j \in J}
+OpsOK(k) == LET rec == Recs[k]  S == OpSet(ToSt(rec.pre), TRUE) IN
+            rec.pre.bad \/ (/\ GroupOps(k, S) = S
+                            /\ \A j \in k..(k + rec.g - 1) : Recs[j].op \in {o.op : o \in S} \cup ExtraOps)
 VARIABLE i
 Judge(rec) ==
     /\ (IF Level # 2 \/ C15OK(rec) THEN TRUE ELSE PrintT(<<"L2FAIL", "C15", rec.id>>))
@@ -29,6 +41,7 @@ Judge(rec) ==
     /\ (IF Level # 1 \/ StepOK(rec) THEN TRUE ELSE PrintT(<<"L1DRIFT", "dlist", rec.id>>))
 TInit == i = 1
 TNext == i < Len(Recs) /\ i' = i + 1 /\ Judge(Recs[i + 1])
+         /\ (IF Level # 1 \/ Recs[i + 1].g = 0 \/ OpsOK(i + 1) THEN TRUE ELSE PrintT(<<"OPSDIFF", "dlist", Recs[i + 1].id>>))
 TSpec == TInit /\ [][TNext]_i
 Done == i = Len(Recs) => PrintT(<<"TRACE-END", i>>)
 =============================================================================
